@@ -1,14 +1,14 @@
 #!/bin/bash
 # mkmut.sh <ID>...: create scratch worktree + prompt for a mutation agent
 for id in "$@"; do
-git -C /repo worktree add --detach /tmp/mut/$id HEAD >/dev/null 2>&1
+mkdir -p /tmp/mut; git -C /repo worktree add --detach /tmp/mut/$id HEAD >/dev/null 2>&1
 python3 - "$id" <<'PY'
 import sys,json
 i=sys.argv[1]
 props={json.loads(l)['id']:json.loads(l) for l in open('/verif/properties.jsonl')}
 p=props[i]
 for k in ('added_in_round','source'): p.pop(k,None)
-t=open('/tmp/mut/PROMPT.tmpl').read()
+t=open('/verif/lib/PROMPT.tmpl').read()
 open(f'/tmp/mut/{i}.prompt','w').write(t.replace('@ID@',i).replace('@PROPERTY@',json.dumps(p,indent=1)))
 PY
 done
